@@ -177,11 +177,11 @@ fn exp(x: Decimal) -> EvalResult {
 }
 
 fn sqrt(x: Decimal) -> EvalResult {
-    if x.is_sign_negative() {
-        return Err("Unable to compute the square root of negative number".into());
-    }
     if x.is_zero() {
         return Ok(Decimal::ZERO);
+    }
+    if x.is_sign_negative() {
+        return Err("Unable to compute the square root of negative number".into());
     }
     // Babylonian iteration, as in rust_decimal's own sqrt(), which however asserts that the iterates
     // become equal and panics ("geo mean circuit breaker") when they end up alternating between two
